@@ -299,8 +299,11 @@ theorem evCheck_cases {mc : MonCfg} {m : MSt} {e : Ev} {cl : Clause} (h : evChec
       cases hc : m.can e.i with
       | none =>
         rw [hc] at h
-        injection h with h
-        exact Or.inr (Or.inr ⟨h.symm, Or.inl ⟨dl, rfl, Or.inl rfl⟩⟩)
+        simp only at h
+        split at h
+        · cases h
+        · injection h with h
+          exact Or.inr (Or.inr ⟨h.symm, Or.inl ⟨dl, rfl, Or.inl rfl⟩⟩)
       | some x =>
         obtain ⟨t, dl'⟩ := x
         rw [hc] at h
